@@ -72,7 +72,7 @@ prop('C05', ['F1', 'F14', 'F2', 'F3', 'F4', 'F11', 'W2', 'K3', 'M7', 'P1', 'P4',
      'A dict rest whose keys come in another order is re-ordered completely by flatten_up_to (W1).',
      ['argument identity', 'functor laws'])
 
-prop('C06', ['H1', 'H4', 'H2', 'H3', 'P5', 'H5', 'M1', 'M5', 'M6', 'S1', 'M8'],
+prop('C06', ['H1', 'H4', 'H2', 'H6', 'H3', 'P5', 'H5', 'M1', 'M5', 'M6', 'S1', 'M8'],
      'Equality and hash: every value that feeds HashCombine is compared strictly by EqualTo (H1); '
      'Python objects enter the hash through their Python hash, never their address (H4); '
      'EqualTo strictly compares size, none_is_leaf and per node kind / arity / registration / '
